@@ -29,6 +29,13 @@ Pairs3 == IF K >= 3 THEN {[properties |-> [a |-> s1, b |-> s2]] : s1 \in Lvl1 \c
 Roots(z) == UNION {Pairs3, {[properties |-> [a |-> s]] : s \in Subs}}
             \cup {[properties |-> [a |-> s, b |-> [default |-> Bool(TRUE)]], required |-> r] : s \in Lvl1, r \in {<<>>, <<"a">>, <<"b">>}}
             \cup {TrueS, FalseS, [default |-> Num(R_1)], [items |-> [properties |-> [a |-> [default |-> Num(R_1)]]]]}
+            \* three levels BELOW a subschema that declares its own default: default -> (no default) -> default;
+            \* the inserted default is completed with containers for the default-less level too
+            \cup {[properties |-> [a |-> [default |-> d, properties |-> [n |-> [properties |-> [x |-> [default |-> Num(R_2)]]]]]]] :
+                    d \in {Obj([y |-> Num(R_1)]), EmptyObj, Obj([n |-> EmptyObj])}}
+            \cup {[default |-> EmptyObj, properties |-> [a |-> [properties |-> [n |-> [properties |-> [x |-> [default |-> Num(R_2)]]]]]]],
+                  [properties |-> [a |-> [default |-> Obj([y |-> Num(R_1)]),
+                                          properties |-> [n |-> [properties |-> [n |-> [properties |-> [x |-> [default |-> Str("a")]]]]]]]]]}
             \* siblings that each receive a CONTAINER (an object default, a container holding nested defaults, a present
             \* object completed in place): every one is built on its own, nothing of one sibling shows up in another
             \cup {[properties |-> [a |-> s1, b |-> s2, c |-> s3]] :
